@@ -27,7 +27,7 @@ pub const SLOT: u64 = 40; // ops::Slot { idx, input: Vec<u8>, output }
 pub const SLOT_INPUT0: u64 = 64; // Slot::new: Vec::with_capacity(64)
 pub const IV: u64 = 16; // IndexedValue
 pub const BOXPTR: u64 = 16; // Box<dyn Streamer>
-pub const ALLOWANCE_S: u64 = 256;
+pub const ALLOWANCE_S: u64 = 4096;
 
 /// Must equal Coq `Mem.mem_bound_bytes_stream maxkey statesz`.
 pub fn mem_bound_bytes_stream(maxkey: u64, statesz: u64) -> u64 {
